@@ -27,6 +27,10 @@ type c37Case struct {
 	Votes   []ev        `json:"votes"`  // vote bursts: A target selector among ALL checkpoint blocks (known or not), B source back, C slot mask
 	Yields  []int       `json:"yields"` // per worker: Gosched calls before starting and between operations
 	TxEvery int         `json:"tx_every"`
+	// Waiters: heights (1..3) for which a caller takes Chain.BlockWaiter before the blocks arrive and
+	// then stops listening, as the wallet does when a rescan is requested and the websocket layer
+	// when its client goes away
+	Waiters []int `json:"waiters,omitempty"`
 }
 
 var c37Tree = ck.GenOpt{MinBlocks: 8, MaxBlocks: 26, Epochs: []uint64{2, 3}, Validators: []int{3, 4}, Txs: true, Sup: true, NodeKeyChoices: []int{-1, 0}}
@@ -51,6 +55,9 @@ func c37Gen(t *rapid.T) c37Case {
 		c.Yields = append(c.Yields, rapid.IntRange(0, 30).Draw(t, "yield"))
 	}
 	c.TxEvery = rapid.IntRange(1, 3).Draw(t, "txevery")
+	if rapid.Bool().Draw(t, "waitersq") {
+		c.Waiters = rapid.SliceOfN(rapid.IntRange(1, 3), 1, 3).Draw(t, "waiters")
+	}
 	return c
 }
 
@@ -80,6 +87,18 @@ func c37Exec(c c37Case, x *pbt.Ctx) error {
 	var txs []*types.Tx
 	for i := 1; i < len(w.Blocks); i++ {
 		txs = append(txs, w.Blocks[i].Block.Transactions[1:]...)
+	}
+
+	for _, wh := range c.Waiters {
+		if wh < 1 || wh > 3 || len(c.Waiters) > 4 {
+			return nil
+		}
+	}
+	for _, wh := range c.Waiters {
+		_ = n.Chain.BlockWaiter(uint64(wh)) // nobody will read from it
+	}
+	if len(c.Waiters) > 0 {
+		x.Class("abandoned-block-waiter")
 	}
 
 	var wg sync.WaitGroup
@@ -278,6 +297,6 @@ func firstLines(s string, n int) string {
 }
 
 func TestC37(t *testing.T) {
-	pbt.Run(t, "C37", "block trees of 8-26 blocks with transactions and block-carried links; four concurrent workers with generated start offsets and yields: block delivery, verification-message bursts for checkpoints that are known or not yet known (early messages, best-chain-changing messages), transaction submissions, read queries; built with -race; every worker must finish (90 s watchdog, goroutine dump must show the lock cycle), afterwards index, ledger and finality invariants hold; non-trivial = a full-majority burst and at least two checkpoints",
+	pbt.Run(t, "C37", "block trees of 8-26 blocks with transactions and block-carried links; four concurrent workers with generated start offsets and yields: block delivery, verification-message bursts for checkpoints that are known or not yet known (early messages, best-chain-changing messages), transaction submissions, read queries; in half of the cases 1-3 block waiters for heights 1-3 are taken beforehand and never listened to; built with -race; every worker must finish (90 s watchdog, goroutine dump must show the lock cycle), afterwards index, ledger and finality invariants hold; non-trivial = a full-majority burst and at least two checkpoints",
 		pbt.Options{Journal: true, Checks: pbt.Per(60, 3000)}, c37Gen, c37Exec)
 }
